@@ -26,15 +26,11 @@ var frameAxiomList = []axiom{
 		body := Imp(And(Ge(ch, IntLit(1)), Lt(i, j)), Le(Add(a, ch), b))
 		return fa([]*Term{ch, i, j}, body, u, []*Term{a, b})
 	}},
-	{"bi-zero-channels", func(u *Unit) *Term {
-		i := bv("i?")
-		t := u.specBI(IntLit(0), IntLit(0), i)
-		return fa([]*Term{i}, Eq(t, IntLit(0)), u, []*Term{t})
-	}},
-	{"bi-one-channel", func(u *Unit) *Term {
-		i := bv("i?")
-		t := u.specBI(IntLit(1), IntLit(0), i)
-		return fa([]*Term{i}, Eq(t, i), u, []*Term{t})
+	{"bi-degenerate", func(u *Unit) *Term {
+		ch, i := bv("ch?"), bv("i?")
+		t := u.specBI(ch, IntLit(0), i)
+		body := And(Imp(Eq(ch, IntLit(0)), Eq(t, IntLit(0))), Imp(Eq(ch, IntLit(1)), Eq(t, i)))
+		return fa([]*Term{ch, i}, body, u, []*Term{t})
 	}},
 	{"fdiv", func(u *Unit) *Term {
 		n, ch := bv("n?"), bv("ch?")
